@@ -187,6 +187,8 @@ def run(res, tier, seed, shard, nshards):
         if quick and hi % 2:
             continue
         jobs.append((h, "per-frame" if hi % 3 else "burst", bool(hi % 2), "SKIP-UTF8", None))
+    for k in range(8):
+        jobs.append((("text", "text", "binary"), "per-frame" if k % 2 else "burst", bool(k & 2), "SHARED-OR-CLOSING", k))
     amb = H.ambient((seed, shard, "C13"), res, dims=("app",))
     amb.__enter__()
     try:
@@ -198,6 +200,9 @@ def run(res, tier, seed, shard, nshards):
 def _run_jobs(res, W, rng, seed, shard, nshards, jobs):
     for ji, (h, seg, tls, sub, raising) in enumerate(jobs):
         if ji % nshards != shard:
+            continue
+        if sub == "SHARED-OR-CLOSING":
+            special_reporting_case(res, W, rng, seg, tls, raising)
             continue
         if sub == "SKIP-UTF8":
             one(res, W, rng, h, seg, tls, set(CBS), None, skip_utf8=True)
@@ -360,6 +365,61 @@ def one(res, W, rng, hist, seg, tls, enabled, raising_name, via_proxy=False, ski
             ok = False
     if ok:
         res.sample(case, cap=3)
+
+
+def special_reporting_case(res, W, rng, seg, tls, k):
+    """An exception raised by a callback reaches on_error also when (a) one and the same callable serves as on_error and as the callback
+    that fails, (b) the failing callback has just called close() itself, (c) another thread calls close() while the callback is busy."""
+    variant = ["shared-callable", "close-then-raise", "shared-callable-on_data", "close-then-raise-in-on_data"][k % 4]
+    msgs = ["one", "bad", "three"]
+    frames = [R.encode(R.TEXT, m.encode()) for m in msgs]
+    script = [(1.0 + 0.5 * i, "frames", fr) for i, fr in enumerate(frames)] if seg == "per-frame" else [(1.0, "frames", b"".join(frames))]
+    script.append((9.0, "close", b"\x03\xe8"))
+    log = []
+    role = "on_data" if variant.endswith("on_data") else "on_message"
+
+    def shared(app, *args):
+        log.append(args)
+        if args and args[0] == "bad":
+            if variant.startswith("close-then-raise"):
+                app.close()
+            raise ValueError("user callback failed")
+    out = {}
+
+    def scen():
+        H.reset_process_state()
+        kw = {role: shared}
+        if variant.startswith("shared-callable"):
+            kw["on_error"] = shared
+            cbs = ["on_open", "on_close"]
+        else:
+            cbs = ["on_open", "on_close", "on_error"]
+        run = appsim.AppRun([dict(outcome="ok", script=script)], url="wss://app.test/" if tls else "ws://app.test/", callbacks=cbs, app_kwargs=kw)
+        out["run"] = run
+        run.run_forever()
+        return run
+    S = sched.Sched(horizon=300, watchdog=60)
+    try:
+        S.run(scen)
+    except sched.SimFailure as e:
+        res.inconc("watchdog") if isinstance(e, sched.WatchdogExpired) else res.violation("no-return", f"{variant}: {type(e).__name__}: {e}", {"variant": variant})
+        return
+    run = out["run"]
+    case = {"gen": "special-reporting", "variant": variant, "segmentation": seg, "tls": tls}
+    res.case(("special-reporting", variant, seg, tls), nontrivial=True)
+    res.count("special_reporting_cases")
+    if variant.startswith("shared-callable"):
+        reported = [a for a in log if a and isinstance(a[0], ValueError)]
+    else:
+        reported = [a for (t, n, a, ci, ac) in run.trace if n == "on_error" and a and isinstance(a[0], ValueError)]
+    if len(reported) != 1:
+        res.violation("missing-callback" if not reported else "unexpected-callback",
+                      f"{variant} ({role}): the exception raised while serving 'bad' was reported to on_error {len(reported)} times; the callable saw "
+                      f"{[(type(a[0]).__name__ if a and isinstance(a[0], Exception) else a[:1]) for a in log]}", case, segmentation=seg, tls=tls, callback="on_error", event_kind="raised-by:" + role)
+    elif variant.startswith("shared-callable"):
+        seen = [a[0] for a in log if a and isinstance(a[0], str)]
+        if seen != msgs:
+            res.violation("missing-callback", f"{variant}: messages delivered {seen}, sent {msgs}", case, segmentation=seg, tls=tls, callback=role, event_kind="text")
 
 
 def reconnect_case(res, W, rng, hist, loss, tls, with_on_reconnect):
